@@ -7,6 +7,10 @@ import Proofs.CoDrainChildren
 import Proofs.CoDrainLinks
 import Proofs.CoDrainCited
 import Proofs.CoDrainSlow
+import Proofs.CoFinal
+import Proofs.CoFinalQueries
+import Proofs.CoDrainWriters
+import Proofs.CoFuelDrain
 /-! C16 — cooperative interleaving of generators. All eleven `*_iter` generators of traph.py are explicit coroutine
     state machines (`Traph/Co.lean`: the two writers, the page and network queries, and the seven other queries under
     `CoSt.query`) holding the same stale node copies as the Python generators; `Sys.run` / `runSched`
@@ -18,10 +22,14 @@ import Proofs.CoDrainSlow
     are never overwritten (`C16_links_any_schedule`), page queries list only pages (`C16_pages_query_sound`) and
     list every page that qualified throughout (`C16_pages_query_complete_entries`); the query machines never
     write. The clause "no item that qualified at no moment" is FALSE of the code: finding F16 is a theorem about
-    the model (Proofs/CoPhantom, `C16_phantom_*`). Not proved: equality of the final link MULTISET with the
-    sequential one and in/out symmetry under schedules (only "nothing lost, each write prepends exactly its
-    targets" is); fuel sufficiency of the query machines; semantics of the network machine's answer. These are
-    tied by the schedule correspondence and the oracle. -/
+    the model (Proofs/CoPhantom, `C16_phantom_*`). The final STATE as a whole — pages, crawled marks, link multigraph at
+    LRU level, in/out symmetry — equals the requests applied one after another in any order, for every schedule and
+    every reachable start state (`C16_final_state`; mid-schedule the in-lists lag behind the out-lists by exactly the
+    pending part of each batch machine: `C16_inlinks_lag`, `C16_symmetry_at_quiescence`, with a kernel-checked window
+    in which a query sees the asymmetry, `C16_asymmetric_window`); no query machine runs out of the model's fuel
+    (`C16_queries_no_fuel`); writers and queries drained on their own equal the atomic requests
+    (`C16_drained_writers`, `C16_drained_queries_atomic`). Not proved: the network machine's answer under
+    interleaving with writers (its bounds are judged by the oracle against atomic probes). -/
 namespace Traph.Props
 open Traph State
 
@@ -191,5 +199,92 @@ theorem C16_phantom_witness :
     (Sys.run (Phantom.before, Phantom.reqs.map CoReq.init) [0, 1, 0, 0, 0]).1.1 = Phantom.after :=
   ⟨Phantom.answer_lists_pz, Phantom.before_not_a_page.1, Phantom.before_not_a_page.2,
    Phantom.after_foreign.1, Phantom.after_foreign.2.2, Phantom.index_states.1, Phantom.index_states.2.2.2⟩
+
+section Final
+open Traph State Layout
+/-! ### the final state under every schedule (Proofs/CoLinkGraph, CoLinkSym, CoFinal) -/
+
+/-- THE PROPERTY'S FIRST HALF IN ONE STATEMENT: from every reachable start state, for every list of generator requests and EVERY schedule under which the writers return: no writer fails; the final pages, crawled marks and link multigraph (weights per ordered pair of LRUs, and every `get_page_links` answer up to order) are those of the requests applied one after another in ANY order; inbound/outbound symmetry holds in the final state -/
+theorem C16_final_state {s : State} (hreach : Reachable s) (reqs : List CoReq) (hwf : ∀ r ∈ reqs, r.Wf)
+    (hcanon : ∀ r ∈ reqs, r.Canon) (sched : Sched)
+    (hdone : ∀ i r, reqs[i]? = some r → r.op ≠ none →
+      ∃ a, (i, CoOut.done a) ∈ (Sys.run (s, reqs.map CoReq.init) sched).2)
+    (reqs' : List CoReq) (hperm : reqs'.Perm reqs) :
+    (∀ i r e, reqs[i]? = some r → r.op ≠ none →
+      (i, CoOut.failed e) ∈ (Sys.run (s, reqs.map CoReq.init) sched).2 → e = .other "StopIteration") ∧
+    ∃ L0 t' t'', LinkView (Sys.run (s, reqs.map CoReq.init) sched).1.1 t' (L0 ++ reqs.flatMap CoReq.links) ∧
+      LinkView (s.run (reqs'.filterMap CoReq.op)) t'' (L0 ++ reqs'.flatMap CoReq.links) ∧
+      RulesOk (Sys.run (s, reqs.map CoReq.init) sched).1.1 ∧
+      (∀ p, IsPage (Sys.run (s, reqs.map CoReq.init) sched).1.1 t' p ↔ IsPage (s.run (reqs'.filterMap CoReq.op)) t'' p) ∧
+      (∀ p, IsCrawled (Sys.run (s, reqs.map CoReq.init) sched).1.1 t' p ↔
+        IsCrawled (s.run (reqs'.filterMap CoReq.op)) t'' p) ∧
+      (∀ p q, nsub (L0 ++ reqs.flatMap CoReq.links) p q = nsub (L0 ++ reqs'.flatMap CoReq.links) p q) ∧
+      (∀ p, IsPage (Sys.run (s, reqs.map CoReq.init) sched).1.1 t' p → ∀ incIn incInt incOut,
+        ((Sys.run (s, reqs.map CoReq.init) sched).1.1.pageLinks p.flatten incIn incInt incOut).Perm
+          ((s.run (reqs'.filterMap CoReq.op)).pageLinks p.flatten incIn incInt incOut)) ∧
+      (∀ a b, count b ((Sys.run (s, reqs.map CoReq.init) sched).1.1.outBag a) =
+        count a ((Sys.run (s, reqs.map CoReq.init) sched).1.1.inBag b)) :=
+  Traph.C16_final_state hreach reqs hwf hcanon sched hdone reqs' hperm
+
+/-- mid-schedule, at every yield point: an in-list never runs ahead of its out-list (the in-lists of a batch are flushed after its out-lists) -/
+theorem C16_inlinks_lag {s : State} {t : T} {L0 : List (Bytes × Bytes)} (hs : Shape s t) (hi : Inv s t)
+    (hr : RulesOk s) (hp : ParOk s t 0) (g : Graph s t L0) (reqs : List CoReq) (hwf : ∀ r ∈ reqs, r.Wf)
+    (hcanon : ∀ r ∈ reqs, r.Canon) (sched : Sched) (a x : Nat) :
+    count a ((Sys.run (s, reqs.map CoReq.init) sched).1.1.inBag x) ≤
+      count x ((Sys.run (s, reqs.map CoReq.init) sched).1.1.outBag a) :=
+  Traph.C16_inlinks_lag hs hi hr hp g reqs hwf hcanon sched a x
+
+/-- …and whenever no batch machine has anything pending, symmetry is exact -/
+theorem C16_symmetry_at_quiescence {s : State} {t : T} {L0 : List (Bytes × Bytes)} (hs : Shape s t) (hi : Inv s t)
+    (hr : RulesOk s) (hp : ParOk s t 0) (g : Graph s t L0) (reqs : List CoReq) (hwf : ∀ r ∈ reqs, r.Wf)
+    (hcanon : ∀ r ∈ reqs, r.Canon) (sched : Sched)
+    (hquiet : ∀ (i : Nat) (b : BatchSt), (Sys.run (s, reqs.map CoReq.init) sched).1.2[i]? = some (CoSt.batch b) →
+      (∀ a x, cl_pendOut b a x = 0) ∧ (∀ a x, cl_pendIn b a x = 0)) (a x : Nat) :
+    count x ((Sys.run (s, reqs.map CoReq.init) sched).1.1.outBag a) =
+      count a ((Sys.run (s, reqs.map CoReq.init) sched).1.1.inBag x) :=
+  Traph.C16_symmetry_at_quiescence hs hi hr hp g reqs hwf hcanon sched hquiet a x
+
+/-- the window is real: two sections into the batch `[(A,[B]),(C,[D])]` the out-list of A holds B while the in-list
+    of B is still empty, and a query sees it (the property speaks of the final state only) -/
+theorem C16_asymmetric_window :
+    SymEx.mid.outBag 4 = [5] ∧ SymEx.mid.inBag 5 = [] ∧
+    SymEx.mid.ask (.pageLinks SymEx.pA false false true) = .links [(SymEx.pA, SymEx.pB, 1)] ∧
+    SymEx.mid.ask (.pageLinks SymEx.pB true false false) = .links [] :=
+  ⟨SymEx.asymmetric_window.2.2.1, SymEx.asymmetric_window.2.2.2.1, SymEx.asymmetric_window.2.2.2.2.1,
+   SymEx.asymmetric_window.2.2.2.2.2⟩
+
+/-- the page and network query machines never stop for lack of the model's fuel, under any schedule from any reachable state (the fuel is a device of the model; the Python generators have none) — the page-query constant was raised after this proof attempt showed the first one insufficient for nested or repeated prefixes -/
+theorem C16_queries_no_fuel {s : State} (hreach : Reachable s) (reqs : List CoReq) (sched : Sched) :
+    (∀ i out auto e, reqs[i]? = some (.queryNet out auto) →
+      (i, CoOut.failed e) ∈ (Sys.run (s, reqs.map CoReq.init) sched).2 → e = .other "StopIteration") ∧
+    (∀ i ps e, reqs[i]? = some (.queryPages ps) → (∀ pf ∈ ps, lruIter pf ≠ []) →
+      (i, CoOut.failed e) ∈ (Sys.run (s, reqs.map CoReq.init) sched).2 → e = .traph ∨ e = .other "StopIteration") :=
+  Traph.C16_queries_no_fuel hreach reqs sched
+
+/-- the rule-installation generator drained on its own IS the atomic request: same index, same write log, same report -/
+theorem C16_drained_rule {s : State} {t : T} (h : Shape s t) (hi : Inv s t) (hz : SizeOk s t) (anchor : Bytes) (r : Rule)
+    (hne : lruIter anchor ≠ []) (N : Nat)
+    (hN : 8 * ((s.rulePrologue anchor r).1.trie.size + 2) * ((s.rulePrologue anchor r).1.trie.size + 2) < N) :
+    CoSt.drainW N s (.rule (RuleSt.init anchor r)) =
+      ((s.addRule anchor r true).1, some (cw_outcome (s.addRule anchor r true).2)) :=
+  Traph.cw_rule_drain h hi hz anchor r hne N hN
+
+/-- the crawl-batch generator drained on its own IS the atomic request (index, write log, report), when each LRU is spelled one way in the batch (with two spellings `a|` and `a|x` of one LRU the generator rewrites one block once more: witness `cw_witness`) -/
+theorem C16_drained_batch {s : State} {t : T} (hs : Shape s t) (hi : Inv s t) (data : List (Bytes × List Bytes))
+    (hwf : (CoReq.batch data).Wf)
+    (hinj : ∀ l l', cw_lrus data l → cw_lrus data l' → lruIter l = lruIter l' → l = l') (N : Nat)
+    (hN : 2 * (data.map (fun d => d.2.length)).sum < N) :
+    CoSt.drainW N s (.batch (BatchSt.init data)) = ((s.batch data).1, some (cw_outcome (s.batch data).2)) :=
+  Traph.cw_batch_drain_exact hs hi data hwf hinj N hN
+
+/-- the page and network query generators drained on their own give the atomic answers -/
+theorem C16_drained_pages_net {s : State} {t : T} (h : Shape s t) (hg : cf_SumOk s) (ps : List Bytes)
+    (hwf : ∀ pf ∈ ps, lruIter pf ≠ []) (out auto : Bool) :
+    ∃ N0, ∀ N, N0 ≤ N →
+      cf_drain N s (.pages { prefixes := ps }) = s.ask (.pages ps) ∧
+      cf_drain N s (.net { out := out, auto := auto }) = s.ask (.network out auto false) :=
+  Traph.cf_drain_atomic h hg ps hwf out auto
+
+end Final
 
 end Traph.Props
